@@ -980,6 +980,26 @@ func (pi *pkgInfo) deser(fd *ast.FuncDecl) string {
 		if q, ok := c.delegate(r, "Deserialize"); ok {
 			return "(MDelegate " + cstr(q) + ")"
 		}
+		// common.ReadBitList(dr, recv, limit): zrnt's own bitlist reader
+		if call, ok := r.(*ast.CallExpr); ok && len(call.Args) == 3 && src(call.Args[0]) == dr && c.isRecv(call.Args[1]) {
+			if q, ok := pi.qname(call.Fun); ok && q == "common.ReadBitList" {
+				return "(MBitList " + c.exp(call.Args[2]) + ")"
+			}
+		}
+	}
+	// if _, err := dr.Read(p[:]); err != nil { return err }; return bitfields.BitvectorCheck(p[:], n)
+	if len(stmts) == 2 {
+		if is, ok := stmts[0].(*ast.IfStmt); ok && is.Else == nil && is.Init != nil && src(is.Cond) == "err != nil" && len(is.Body.List) == 1 && src(is.Body.List[0]) == "return err" {
+			if as, ok := is.Init.(*ast.AssignStmt); ok && len(as.Lhs) == 2 && len(as.Rhs) == 1 && src(as.Lhs[0]) == "_" && src(as.Lhs[1]) == "err" {
+				if m, args, ok := isCallOn(as.Rhs[0], dr); ok && m == "Read" && len(args) == 1 && c.isRecv(args[0]) {
+					if rs, ok := stmts[1].(*ast.ReturnStmt); ok && len(rs.Results) == 1 {
+						if m2, a2, ok := isCallOn(rs.Results[0], "bitfields"); ok && m2 == "BitvectorCheck" && len(a2) == 2 && c.isRecv(a2[0]) {
+							return "(MBitVector " + c.exp(a2[1]) + ")"
+						}
+					}
+				}
+			}
+		}
 	}
 	// _, err := dr.Read(p[:]); return err
 	if len(stmts) == 2 {
